@@ -11,15 +11,22 @@ from ..explore import bfs
 from ..seam2 import SiteWorld, endpoint
 from .c17_site import parse_linkformat
 
+import logging
+
 from aiocoap import Message, GET, POST, PUT, DELETE
 from aiocoap.cli.rd import StandaloneResourceDirectory
+
+logging.getLogger("resource-directory").addHandler(logging.NullHandler())
+logging.getLogger("resource-directory").propagate = False
 
 PROP = "C20"
 LEVEL = "model_checking"
 RULE = ("E3: BFS over all sequences to depth D of: 5 valid registrations over keys (e1), (e1,d1), (e2) with lt absent/60/120 and two "
         "link sets; 6 invalid registrations of a possibly live key (no ep, lt=abc, two lt, forbidden key, bad body, wrong content "
         "format); updates of the first/second location by POST (lt, parameter, illegal ep=, lt=abc, with body) and PUT (links, bad "
-        "body, illegal parameter); DELETE; unknown location; clock steps to just before/after the earliest expiry; dedup on model + "
+        "body, illegal parameter); DELETE; unknown location; clock steps to just before/after the earliest expiry; updates with several "
+        "parameters (one unchanged, others new); simple registrations through /.well-known/rd and /.well-known/core whose link fetch "
+        "is answered with link sets / 4.04 / a wrong content format / not link-format, or which carry base=; dedup on model + "
         "directory tables + timers")
 ASSUMPTIONS = [
     "grace period 15 s and default lifetime 90000 s as documented in cli/rd.py / RFC 9176",
@@ -58,7 +65,46 @@ OPS = [
     ("put", 0, "L2"), ("put", 0, "badbody"), ("put", 0, "L2+d=zz"),
     ("del", 0), ("del", 1), ("upd", "nowhere", "lt=60"),
     ("t", "before"), ("t", "after"),
+    # updates that carry several parameters at once: one the registration already has, then new ones (every one of them counts)
+    ("upd", 0, "x=1&y=2"), ("upd", 0, "y=2&x=3"),
+    # simple registration (RFC 9176 section 5.1): the directory fetches the registrant's /.well-known/core itself; the outcome of
+    # that fetch is the last-but-one field (link set / 4.04 / wrong content format / not link-format); "+base" is refused outright
+    ("simple", "e1", None, 60, "L2", "rd"), ("simple", "e1", None, 60, "404", "rd"), ("simple", "e2", None, None, "cf", "core"),
+    ("simple", "e1", "d1", 120, "garbage", "rd"), ("simple", "e1", None, 60, "L1+base", "rd"), ("simple", "e2", None, 60, "L1", "core"),
 ]
+INVALID_UPDATES = ("ep=e9", "lt=abc", "lt=30&base=coap://[2001:db8::a]&base=coap://[2001:db8::b]")
+
+
+class FakeFetch:
+    """What SimpleRegistration gets from context.request(): the registrant's answer to GET /.well-known/core, chosen by the op."""
+
+    def __init__(self, st, msg):
+        from aiocoap import error
+        from aiocoap.numbers.codes import Code
+        st.fetches.append((int(msg.code), msg.get_request_uri() if msg.remote is None or msg.opt.uri_path else None, msg.opt.accept))
+        out = st.fetch_outcome
+        self.response = st.sw.loop.create_future()
+        if out in LINKS:
+            r = Message(code=Code.CONTENT, payload=LINKS[out][0], content_format=40)
+        elif out == "404":
+            r = Message(code=Code.NOT_FOUND)
+        elif out == "cf":
+            r = Message(code=Code.CONTENT, payload=L1, content_format=0)
+        else:
+            r = Message(code=Code.CONTENT, payload=b"<<<not link format", content_format=40)
+        st.sw.loop.call_soon(self.response.set_result, r)
+        self._error = error
+
+    @property
+    async def response_raising(self):
+        r = await self.response
+        if not r.code.is_successful():
+            raise self._error.ResponseWrappingError(r)
+        return r
+
+    @property
+    async def response_nonraising(self):
+        return await self.response
 
 
 class St:
@@ -82,6 +128,9 @@ def build(hist):
     st.locs = []         # locations in order of first appearance
     st.violations = []
     st.last = []
+    st.fetches = []
+    st.fetch_outcome = None
+    st.sw.ctx.request = lambda msg, **kw: FakeFetch(st, msg)
     for i, op in enumerate(hist):
         n = len(st.violations)
         # the lookups are compared in full after the last step only: every proper prefix is a state of its own and was judged there
@@ -166,6 +215,43 @@ def apply(st, op):
                              "base": "coap://[2001:db8::%x]:40000" % src}
             if loc not in st.locs:
                 st.locs.append(loc)
+    elif op[0] == "simple":
+        _, epn, d, lt, outcome, where = op
+        q = ["ep=" + epn] + (["d=" + d] if d else []) + (["lt=%d" % lt] if lt is not None else [])
+        src = 1 if epn == "e1" else 2
+        refused = outcome.endswith("+base")
+        if refused:
+            q.append("base=coap://[2001:db8::99]")
+            outcome = outcome[:-5]
+        st.fetch_outcome = outcome
+        n_f = len(st.fetches)
+        r = request(st, POST, [".well-known", where], q, b"", None, ep=src)
+        key = (epn, d)
+        if refused or outcome not in LINKS:
+            expect_error = True
+        elif not (hasattr(r, "code") and int(r.code) == 68):
+            viol(st, "valid-registration-refused", "2.04", repr(r), "cli/rd.py:SimpleRegistration.render_post", "simple")
+        else:
+            want_fetch = [(1, "coap://[2001:db8::%x]:40000/.well-known/core" % src, 40)]
+            if st.fetches[n_f:] != want_fetch:
+                viol(st, "simple-registration-fetch", want_fetch, st.fetches[n_f:], "cli/rd.py:SimpleRegistration.process_request", "fetch")
+            reg = st.rd.common_rd._by_key.get(key)
+            loc = tuple(reg.path) if reg is not None else None
+            old = st.model.get(key)
+            if loc is None:
+                viol(st, "valid-registration-refused", "a registration for %r" % (key,), "none in the table", "cli/rd.py:SimpleRegistration.process_request", "simple-lost")
+            else:
+                if old is not None and old["loc"] != loc:
+                    viol(st, "re-registration-moved", old["loc"], loc, "cli/rd.py:CommonRD.initialize_endpoint", "moved")
+                if loc in [m["loc"] for k, m in st.model.items() if k != key]:
+                    viol(st, "location-shared", "distinct registrations have distinct locations", loc, "cli/rd.py:CommonRD._new_pathtail", "shared")
+                params = {"ep": [epn]}
+                if d:
+                    params["d"] = [d]
+                st.model[key] = {"loc": loc, "params": params, "links": outcome, "lt": 90000 if lt is None else lt, "written": now,
+                                 "base": "coap://[2001:db8::%x]:40000" % src}
+                if loc not in st.locs:
+                    st.locs.append(loc)
     elif op[0] == "badreg":
         kind = op[1]
         q, body, cf = ["ep=e1", "lt=60"], L1, 40
@@ -209,18 +295,19 @@ def apply(st, op):
                 expect_error = True
             else:
                 r = request(st, POST, loc, arg.split("&"), ep=src)
-                if m is None or arg in ("ep=e9", "lt=abc") or "&" in arg:
+                if m is None or arg in INVALID_UPDATES:
                     expect_error = True
                 else:
                     if int(r.code) != 68:
                         viol(st, "valid-update-refused", "2.04", repr(r), "cli/rd.py:RegistrationResource.render_post", "upd")
-                    k, v = arg.split("=", 1)
-                    if k == "lt":
-                        m["lt"] = int(v)
-                    elif k == "base":
-                        m["base"] = v        # an explicit base replaces the one derived from the source address, for every link
-                    else:
-                        m["params"][k] = [v]
+                    for part in arg.split("&"):
+                        k, v = part.split("=", 1)
+                        if k == "lt":
+                            m["lt"] = int(v)
+                        elif k == "base":
+                            m["base"] = v        # an explicit base replaces the one derived from the source address, for every link
+                        else:
+                            m["params"][k] = [v]
                     m["written"] = now
         else:
             arg = op[2]
